@@ -570,6 +570,90 @@ func stopFromCallback(c *vk.Ctx, role rig.Role, idx int) {
 	}
 }
 
+// secondCycle: one session object used for two logons. After a first complete logon/logout cycle the session logs on
+// again (an initiator through LogonRequest, an acceptor by the peer's new Logon); the Logout flows of the second
+// cycle work like those of the first.
+func secondCycle(c *vk.Ctx, role rig.Role, variant string, idx int) {
+	desc := fmt.Sprintf("%s second logon of one session, then %s", role, variant)
+	replay := map[string]interface{}{"scenario": desc, "seed": c.Seed}
+	var appLogout int32
+	r, err := rig.NewStepRig(rig.StepCfg{Role: role, HeartBtInt: 30, Limits: &session.IntLimits{Min: 5, Max: 60}, CloseTimeout: 2 * time.Second, SentinelBarrier: true,
+		AfterRun: func(h *simplefixgo.DefaultHandler, s *session.Session) {
+			s.OnChangeState(utils.EventLogout, func() bool { atomic.AddInt32(&appLogout, 1); return true })
+		}})
+	if err != nil {
+		c.Inconclusive("rig: " + err.Error())
+		return
+	}
+	defer r.Close()
+	p := rig.NewPeer()
+	if res := r.Inbound(p.Logon(30, "0")); !res.Logged {
+		c.Inconclusive("no logon: " + desc)
+		return
+	}
+	// first cycle: ended by the peer (idx even) or by the application (idx odd)
+	if idx%2 == 0 {
+		if res := r.Inbound(p.Logout()); res.TimedOut || res.Logged || count(res.Outs, "5") != 1 {
+			return // the first cycle is judged by the other scenarios
+		}
+	} else {
+		r.Do(func() error { return r.S.Logout() })
+		if res := r.Inbound(p.Logout()); res.TimedOut || res.Logged {
+			return
+		}
+	}
+	if role == rig.Initiator {
+		if res := r.Do(func() error { return r.S.LogonRequest() }); res.TimedOut || count(res.Outs, "A") != 1 {
+			return
+		}
+	}
+	if res := r.Inbound(p.Logon(30, "0")); res.TimedOut || !res.Logged {
+		c.Count("second_cycles_without_a_second_logon", 1)
+		return
+	}
+	c.Eval(vk.Hash64([]byte(desc), []byte{byte(idx)}), true)
+	c.Count("second_logon_cycles", 1)
+	switch variant {
+	case "peer-logout":
+		res := r.Inbound(p.Logout())
+		if res.TimedOut {
+			c.Inconclusive("watchdog: " + desc)
+			return
+		}
+		if count(res.Outs, "5") != 1 {
+			c.Violate("C15/peer-logout-not-acknowledged-once/second-logon-of-the-session/"+role.String(), desc+": answered with "+types(res.Outs)+", want exactly one Logout", replay)
+		}
+		if res.Logged {
+			c.Violate("C15/still-logged-after-peer-logout/second-logon-of-the-session/"+role.String(), desc+": IsLogged is still true", replay)
+		}
+	case "stop":
+		before := atomic.LoadInt32(&appLogout)
+		res := r.Do(func() error { return r.S.Stop() })
+		if res.TimedOut {
+			c.Inconclusive("watchdog in Stop: " + desc)
+			return
+		}
+		if count(res.Outs, "5") != 1 {
+			c.Violate("C15/stop-did-not-send-one-logout/second-logon-of-the-session/"+role.String(), desc+": Stop emitted "+types(res.Outs)+", want one Logout", replay)
+			return
+		}
+		done := r.S.Context().Done()
+		if res := r.Inbound(p.Logout()); res.TimedOut {
+			c.Inconclusive("watchdog: " + desc)
+			return
+		}
+		select {
+		case <-done:
+		case <-time.After(time.Second):
+			c.Violate("C15/stop-not-ended-by-answer/second-logon-of-the-session/"+role.String(), desc+": 1 s after the peer's answer the session's context is not cancelled (close timeout 2 s)", replay)
+			return
+		}
+		if atomic.LoadInt32(&appLogout) != before+1 {
+			c.Violate("C15/logout-event-not-signalled-to-application/after-stop/second-logon-of-the-session/"+role.String(), fmt.Sprintf("%s: the application's EventLogout handler ran %d times for the second logout", desc, atomic.LoadInt32(&appLogout)-before), replay)
+		}
+	}
+}
+
 // flakyCounter is the bundled store whose next SetSeqNum for the incoming side fails once when armed (a transient
 // fault of the application's counter store).
 type flakyCounter struct {
@@ -703,6 +787,15 @@ func main() {
 			go func(i int, role rig.Role, variant string) {
 				defer wg.Done()
 				storeFaultAtLogout(c, role, variant, i)
+			}(i, role, variant)
+		}
+	}
+	for i, variant := range []string{"peer-logout", "peer-logout", "stop", "stop"} {
+		for _, role := range []rig.Role{rig.Acceptor, rig.Initiator} {
+			wg.Add(1)
+			go func(i int, role rig.Role, variant string) {
+				defer wg.Done()
+				secondCycle(c, role, variant, i)
 			}(i, role, variant)
 		}
 	}
